@@ -218,9 +218,13 @@ def run_balance(desc, reuse=None):
     procs = fd.make_processes(["sysenv"] + [f"P{i}" for i in range(1, desc["nproc"])])
     pl = list(procs.values())
 
+    # the unit of the whole system: every value (and an explicit tolerance) times 2^u, which is exact in binary
+    # floating point, so all verdicts carry over unchanged - flows of grams or of gigatonnes
+    unit = 2.0 ** int(desc.get("unit_exp") or 0)
+
     def nd(name):
         m = arrs[name]
-        return build.ndarray_from_fn(list(m.letters), items, lambda lab: float(m.get(lab)), float)
+        return build.ndarray_from_fn(list(m.letters), items, lambda lab: float(m.get(lab)) * unit, float)
 
     flows = {}
     for i, f in enumerate(desc["flows"]):
@@ -274,9 +278,9 @@ def run_balance(desc, reuse=None):
                 getattr(mfa.stocks[f"S{i}"], q).values[...] = nd(f"S{i}.{q}")
     kw = {"raise_error": desc["raise"]}
     if desc["tol"] == "explicit":
-        kw["tolerance"] = tol
+        kw["tolerance"] = tol * unit
     how, err = observe(lambda: mfa.check_mass_balance(**kw))
-    classes = [f"mode:{desc['mode']}", f"tol:{desc['tol']}" + ("=0" if desc.get("zero_tol") and desc["tol"] == "explicit" else ""), "raise" if desc["raise"] else "warn", f"nproc:{desc['nproc']}", f"stocks:{len(desc['stocks'])}", "expect-fail" if expect_fail else "expect-pass"]
+    classes = ([f"unit:2^{int(desc.get('unit_exp') or 0)}"] if desc.get("unit_exp") else []) + [f"mode:{desc['mode']}", f"tol:{desc['tol']}" + ("=0" if desc.get("zero_tol") and desc["tol"] == "explicit" else ""), "raise" if desc["raise"] else "warn", f"nproc:{desc['nproc']}", f"stocks:{len(desc['stocks'])}", "expect-fail" if expect_fail else "expect-pass"]
     if nan:
         classes.append("nan")
     if any(v is None for v in per_proc.values()):
@@ -347,6 +351,7 @@ def balance_cases(draw):
             where = draw(st.sampled_from(["S0.stock", "F0", "F1"]))
             d["big"] = {"where": where, "exp": draw(st.sampled_from([20, 30, 40])), "pos": draw(st.integers(0, 20))}
     d["nan"] = {"idx": draw(st.integers(0, 30)), "pos": draw(st.integers(0, 50))} if draw(st.integers(0, 5)) == 0 else None
+    d["unit_exp"] = draw(st.sampled_from([0, 0, 0, -20, -45, -70, 30]))
     if mode == "balanced" and d["tol"] == "explicit" and draw(st.booleans()):
         d["zero_tol"] = True
     if mode == "balanced" and d["tol"] == "default" and draw(st.booleans()):
@@ -417,6 +422,11 @@ def run_flows(desc):
             expected.add(name)
         elif not has_nan and np.any(v < -tol):
             expected.add(name)
+    unit = 2.0 ** int(desc.get("unit_exp") or 0)  # exact rescaling of the whole system (see run_balance)
+    if unit != 1.0:
+        for v in list(vals.values()) + list(svals.values()):
+            v *= unit
+        tol *= unit
     undecided = set()
     if has_nan:  # 'the tolerance' is undefined in a system holding a NaN: negative flows not asserted
         undecided = {n for n, v in vals.items() if not np.any(np.isnan(v)) and np.any(v < 0)}
@@ -468,7 +478,7 @@ def flow_cases(draw):
         {"flow": draw(st.integers(0, 10)), "pos": draw(st.integers(0, 50)), "kind": draw(st.sampled_from(["nan", "nan", "neg", "neg", "just-below", "just-above", "just-above"]))}
         for _ in range(draw(st.integers(0, 4)))
     ]
-    return {"universe": U, "nproc": nproc, "flows": flows, "stocks": stocks, "edits": edits, "bigstock": draw(st.sampled_from([None, None, 30])), "verbose": draw(st.booleans())}
+    return {"universe": U, "nproc": nproc, "flows": flows, "stocks": stocks, "edits": edits, "bigstock": draw(st.sampled_from([None, None, 30])), "verbose": draw(st.booleans()), "unit_exp": draw(st.sampled_from([0, 0, -20, -45, -70, 30]))}
 
 
 class Flows(Facet):
